@@ -35,6 +35,13 @@ pub struct DocumentState {
 pub struct IncanLanguageServer {
     client: Client,
     documents: Arc<RwLock<HashMap<Url, DocumentState>>>,
+    /// Ticket of the most recent open/change/close notification per document.
+    ///
+    /// Handlers run concurrently and finish in any order; a handler may only touch the document cache while
+    /// it still holds the latest ticket, so a slow analysis of an old version never overwrites a newer
+    /// version or resurrects a closed document.
+    latest_ticket: Arc<std::sync::Mutex<HashMap<Url, u64>>>,
+    next_ticket: std::sync::atomic::AtomicU64,
 }
 
 impl IncanLanguageServer {
@@ -42,12 +49,47 @@ impl IncanLanguageServer {
         Self {
             client,
             documents: Arc::new(RwLock::new(HashMap::new())),
+            latest_ticket: Arc::new(std::sync::Mutex::new(HashMap::new())),
+            next_ticket: std::sync::atomic::AtomicU64::new(1),
+        }
+    }
+
+    /// Register a new notification for `uri`. Called synchronously at handler entry (before any await),
+    /// so tickets are issued in the order the notifications arrived.
+    fn take_ticket(&self, uri: &Url) -> u64 {
+        let ticket = self.next_ticket.fetch_add(1, std::sync::atomic::Ordering::SeqCst);
+        if let Ok(mut latest) = self.latest_ticket.lock() {
+            latest.insert(uri.clone(), ticket);
+        }
+        ticket
+    }
+
+    fn is_latest(&self, uri: &Url, ticket: u64) -> bool {
+        self.latest_ticket
+            .lock()
+            .map(|latest| latest.get(uri) == Some(&ticket))
+            .unwrap_or(true)
+    }
+
+    /// Cache `state` for `uri` unless a newer notification for that document has arrived meanwhile.
+    async fn store_if_latest(&self, uri: &Url, ticket: u64, state: DocumentState) {
+        let mut docs = self.documents.write().await;
+        if self.is_latest(uri, ticket) {
+            docs.insert(uri.clone(), state);
         }
     }
 
     /// Analyze a document and publish diagnostics
-    async fn analyze_document(&self, uri: &Url, source: &str, version: i32) {
+    async fn analyze_document(&self, uri: &Url, source: &str, version: i32, ticket: u64) {
         let mut diagnostics = Vec::new();
+        // What the cache holds when this text cannot be analysed: the text itself and no AST, so that
+        // hover/definition answer nothing rather than something computed from an older version.
+        let unparsed = DocumentState {
+            source: source.to_string(),
+            ast: None,
+            version,
+            const_types: HashMap::new(),
+        };
 
         // Step 1: Lex
         let tokens = match lexer::lex(source) {
@@ -57,6 +99,7 @@ impl IncanLanguageServer {
                 for error in &errors {
                     diagnostics.push(compile_error_to_diagnostic(error, source, uri));
                 }
+                self.store_if_latest(uri, ticket, unparsed).await;
                 #[cfg(incan_verif)]
                 crate::lsp::verif::pause("before_publish", version).await;
                 self.client
@@ -74,6 +117,7 @@ impl IncanLanguageServer {
                 for error in &errors {
                     diagnostics.push(compile_error_to_diagnostic(error, source, uri));
                 }
+                self.store_if_latest(uri, ticket, unparsed).await;
                 #[cfg(incan_verif)]
                 crate::lsp::verif::pause("before_publish", version).await;
                 self.client
@@ -114,18 +158,17 @@ impl IncanLanguageServer {
         // Store AST for hover/goto
         #[cfg(incan_verif)]
         crate::lsp::verif::pause("before_store", version).await;
-        {
-            let mut docs = self.documents.write().await;
-            docs.insert(
-                uri.clone(),
-                DocumentState {
-                    source: source.to_string(),
-                    ast: Some(ast),
-                    version,
-                    const_types,
-                },
-            );
-        }
+        self.store_if_latest(
+            uri,
+            ticket,
+            DocumentState {
+                source: source.to_string(),
+                ast: Some(ast),
+                version,
+                const_types,
+            },
+        )
+        .await;
 
         // Publish diagnostics (even if empty, to clear old ones)
         #[cfg(incan_verif)]
@@ -502,28 +545,34 @@ impl LanguageServer for IncanLanguageServer {
         let uri = params.text_document.uri;
         let source = params.text_document.text;
         let version = params.text_document.version;
+        let ticket = self.take_ticket(&uri);
 
-        self.analyze_document(&uri, &source, version).await;
+        self.analyze_document(&uri, &source, version, ticket).await;
     }
 
     async fn did_change(&self, params: DidChangeTextDocumentParams) {
         let uri = params.text_document.uri;
         let version = params.text_document.version;
+        let ticket = self.take_ticket(&uri);
 
         // We use FULL sync, so there's only one change with the full content
         if let Some(change) = params.content_changes.into_iter().next() {
-            self.analyze_document(&uri, &change.text, version).await;
+            self.analyze_document(&uri, &change.text, version, ticket).await;
         }
     }
 
     async fn did_close(&self, params: DidCloseTextDocumentParams) {
         let uri = params.text_document.uri;
+        let ticket = self.take_ticket(&uri);
 
-        // Remove document from cache
+        // Remove document from cache (unless it has been re-opened meanwhile)
         #[cfg(incan_verif)]
         crate::lsp::verif::pause("close_before_remove", -1).await;
         let mut docs = self.documents.write().await;
-        docs.remove(&uri);
+        if self.is_latest(&uri, ticket) {
+            docs.remove(&uri);
+        }
+        drop(docs);
 
         // Clear diagnostics
         self.client.publish_diagnostics(uri, vec![], None).await;
